@@ -333,6 +333,18 @@ theorem c12_lexer_terminates (q : List QRn) :
    (lexAll_spec (q.length + 1) q (Nat.le_refl _)).1, (lexAll_spec (q.length + 1) q (Nat.le_refl _)).2.1,
    (lexAll_spec (q.length + 1) q (Nat.le_refl _)).2.2⟩
 
+/-- **A quoted literal is accepted only when it is terminated.**  If `unquotePrefix` returns a token for input that
+starts with a quote, the input is: that quote, some runes, a rune equal to the opening quote at which the unquoting loop
+stood at an iteration boundary (so not one consumed by an escape such as `\"`), and then exactly the returned rest.
+An input without any further quote rune is an error - `service:"a\"` style literals whose only closing candidates are
+escaped run the loop to the end of the input and are rejected (`unquoteLoop` on `[]` is an error). -/
+theorem c12_quoted_literal_needs_closing_quote (h : QRn) (t : List QRn) :
+    (∀ out rest, unquotePrefix (h :: t) = .ok (out, rest) → ∃ pre p, t = pre ++ p :: rest ∧ p.r.cp = h.r.cp) ∧
+    ((∀ x, x ∈ t → x.r.cp ≠ h.r.cp) → unquotePrefix (h :: t) = .err) ∧
+    (∀ quote f acc, unquoteLoop quote (f + 1) acc [] = .err) :=
+  ⟨fun out rest hok => unquotePrefix_closing h t out rest hok, unquotePrefix_no_quote h t,
+   fun _ _ _ => by simp [unquoteLoop]⟩
+
 /-- **C12 totality of `ParseSeqQL` on strings**: for every query (any runes, any answers of the `unicode`, `strconv`
 and `EqualFold` oracles), every mapping, either case setting and any nesting limit: lexer, parser and NOT propagation
 together return a query or an error - no panic, no loop. -/
@@ -560,6 +572,16 @@ theorem c12_nesting_bounded_extracted (m : Nat → FType) (f : Nat) (toks : List
   · exact (c12_nesting_bounded (tokSeqQL seqqlDefaultPanics seqqlMaxNest m) mx1 (by simp [tokSeqQL, e1]) f toks d n hn).1
   · exact (c12_nesting_bounded (tokLegacy legacyDefaultPanics legacyMaxNest m) mx2 (by simp [tokLegacy, e2]) f toks d n hn).2
 
+/-- the word-rune predicates of both text term builders are `IsLetter || IsNumber || '_' || '*'` (what
+`SV.Parser.isWordRune` transcribes: `r.letter || r.number || cp = 95 || cp = 42`), the lexer's token runes are
+`IsLetter || IsDigit || '_' || '.'` (`isTokenRune`), and `unquotePrefix` keeps its final closing-quote check -/
+theorem c12_x_rune_predicates :
+    seqqlWordRuneConds = ["unicode.IsLetter(r) || unicode.IsNumber(r) || r == '_' || r == '*'"] ∧
+    legacyWordRuneConds = ["unicode.IsLetter(c) || unicode.IsNumber(c)", "c == '_' || c == '*'"] ∧
+    tokenRuneExpr = ["unicode.IsLetter(r) || unicode.IsDigit(r) || r == '_' || r == '.'"] ∧
+    unquotePrefixConds = ["if len(q) < 2", "if quote != '\"' && quote != '`' && quote != '\\''", "if end == -1",
+      "if !needUnquote(q[1:end])", "if err != nil", "if prefix == \"\" || prefix[0] != quote"] := by decide
+
 /-- the field type switches handle keyword, path and text and return an error otherwise (no `panic` in `default:`) -/
 theorem c12_x_type_switch :
     seqqlTypeCases = ["TokenizerTypeKeyword,TokenizerTypePath", "TokenizerTypeText"] ∧
@@ -619,6 +641,14 @@ example :
     lexAll 8 [r 97 true false, r 32 false true, r 34 false false, r 98 true false, r 32 false true, r 99 true false, r 34 false false]
     = .ok [⟨[⟨[97], 97, true, false, false, 97, false⟩], false, false, false⟩,
            ⟨[⟨[98], 98, true, false, false, 98, false⟩, ⟨[32], 32, false, false, false, 32, true⟩, ⟨[99], 99, true, false, false, 99, false⟩], true, true, false⟩] := by
+  decide
+
+/-- `"a\"` (the only closing candidate is escaped): the unquoting loop runs off the end - an error; the lexer then emits
+the quote as a one-rune unquoted token -/
+example :
+    let r (c : Nat) (uq : Option (Rn × Nat)) : QRn := ⟨⟨[c], c, c = 97, false, false, c, false⟩, uq, uq⟩
+    let dq : Rn := ⟨[34], 34, false, false, false, 34, false⟩
+    unquotePrefix [r 34 none, r 97 (some (⟨[97], 97, true, false, false, 97, false⟩, 1)), r 92 (some (dq, 2)), r 34 none] = .err := by
   decide
 
 /-- legacy rune level: `a:b` (nil mapping) parses to the literal `a:b`; `a:` ends in an error, not in `tp.cur()` past the end -/
